@@ -3,7 +3,7 @@
    from the current source (Gen_C02); closed by the LAW/TIE lemmas of Tie_C02_*. *)
 From Coq Require Import Reals List.
 From Epsic Require Import Scalar SpecPauli SpecJones Gen_C02
-  Tie_C02_basic Tie_C02_xform Tie_C02_cplx Tie_C02_basis Tie_C02_mueller_spec
+  Tie_C02_basic Tie_C02_xform Tie_C02_extra Tie_C02_cplx Tie_C02_basis Tie_C02_mueller_spec
   Tie_C02_mu_lin0 Tie_C02_mu_lin1 Tie_C02_mu_lin2 Tie_C02_mu_lin3
   Tie_C02_mu_circ0 Tie_C02_mu_circ1 Tie_C02_mu_circ2 Tie_C02_mu_circ3.
 Import ListNotations.
@@ -172,3 +172,13 @@ Proof.
     rewrite H02, H12, H22; ring.
 Qed.
 Print Assumptions C02_any_orthogonal_basis.
+
+(* accessors of Stokes and the coherency-vector constructor (added after the mutation sweep) *)
+Theorem C02_stokes_accessors s0 s1 s2 s3 v0 v1 v2 t :
+  stokes_accessors (OO:=ROps) s0 s1 s2 s3 v0 v1 v2 t =
+  [s0; s1; s2; s3; s1*s1 + s2*s2 + s3*s3; s1*s1 + s2*s2 + s3*s3; s0*s0 - (s1*s1 + s2*s2 + s3*s3); t; s1; s2; s3; s0; v0; v1; v2]%R.
+Proof. apply tie_stokes_accessors. Qed.
+Theorem C02_coherency_vector c0 c1 c2 c3 :
+  firstn 8 (coherency_vector_convert (OO:=ROps) c0 c1 c2 c3) = [c0; 0; c2; - c3; c2; c3; c1; 0]%R.
+Proof. apply tie_coherency_vector_convert. Qed.
+Print Assumptions C02_stokes_accessors.
